@@ -893,7 +893,13 @@ def c17(tier, seed):
 
 C20_PROBE = ("local s = 'single' .. \"double\"\nf \"x\"\ng{ 1 }\nfunction foo() return 1 end\nfoo(1)\n"
              "local t = { aaaaaaaaaaaaaaaaaaaaaaaaaaaaaaaaaa = 1, bbbbbbbbbbbbbbbbbbbbbbbbbbbbbbbbbbbbbb = 2 }\n"
-             "if x then return end\nlocal b = require(\"b\")\nlocal a = require(\"a\")\n")
+             "if x then return end\nlocal b = require(\"b\")\nlocal a = require(\"a\")\n"
+             # a call that wraps at width 40 but not at 80; strings for which the Auto styles and the Force styles differ
+             "local medium = call_function_name(argument_one, argument_two, arg3)\n"
+             "local q1 = 'say \"a\" and \"b\"'\nlocal q2 = \"it's 'c'\"\n"
+             # two calls at nesting depth 3 whose wrapping depends on how many columns a tab / an indent level counts
+             # (102 characters: wraps only at width 8; 111 characters: wraps at 4 and 8, not at 2)
+             "function deep()\n\tfor i = 1, 2 do\n\t\tif i then\n\t\t\tregister_handler(argument_00, argument_01, argument_02, argument_03, argument_04, argument_05xxxxxxxx)\n\t\t\tregister_fallback(argument_00, argument_01, argument_02, argument_03, argument_04, argument_05, argument_06xxx)\n\t\tend\n\tend\nend\n")
 
 # option, toml key, flag, editorconfig key, [(value as toml literal, flag value, editorconfig value or None, harness cfg fragment)]
 def _c20_options():
@@ -921,6 +927,15 @@ def c20(tier, seed):
             rc, out, err = run(args + ["p.lua"], t.root, env=env)
             runs += 1
             return rc, open(os.path.join(t.root, "p.lua"), "rb").read().decode("utf-8", "replace"), err.decode("utf-8", "replace")
+    # the probe must tell the values of an option apart (else comparing carriers says nothing): recorded in the evidence
+    insensitive = []
+    for key, flag, eckey, values in _c20_options():
+        libs = {}
+        for toml_v, flag_v, ec_v, frag in values:
+            libs.setdefault(_lib_format(C20_PROBE, "syntax=All " + frag if not frag.startswith("syntax") else frag), []).append(flag_v)
+        for same in libs.values():
+            if len(same) > 1 and key != "syntax":
+                insensitive.append({"option": key, "values_with_equal_output": same})
     for key, flag, eckey, values in _c20_options():
         for toml_v, flag_v, ec_v, frag in values:
             lib = _lib_format(C20_PROBE, "syntax=All " + frag if not frag.startswith("syntax") else frag)
@@ -1053,7 +1068,7 @@ def c20(tier, seed):
                 if rc != 2 or after["p.lua"][0] != before["p.lua"][0]:
                     V.append(v("C20", "malformed-config-accepted:config-path:" + name, {"config": body, "exit": rc}))
     Q.append(q("optiontables", "ok"))
-    S.append({"c20": {"runs": runs, "option_pair_runs": pair_runs, "options": len(_c20_options()) + 1, "malformed_kinds": len(bad), "oracle_evaluations": runs}})
+    S.append({"c20": {"runs": runs, "probe_insensitive_to": insensitive, "option_pair_runs": pair_runs, "options": len(_c20_options()) + 1, "malformed_kinds": len(bad), "oracle_evaluations": runs}})
     return Q, V, S
 
 
